@@ -1,0 +1,22 @@
+//go:build verif
+
+package connectivity
+
+// Opaque contracts (property C14): nothing is assumed about these functions;
+// `modifies *` without a postcondition only keeps the constructor obligations
+// of the provider from depending on their bodies. Comment-only.
+
+/*@
+func New(checkFunc func() bool, opts ...Option) (*ConnectivityChecker, error)
+  modifies *
+func (c *ConnectivityChecker) SetCallbacks(onOnline, onDisconnected, onOffline func())
+  modifies *
+func (c *ConnectivityChecker) Start()
+  modifies *
+func (c *ConnectivityChecker) Close() error
+  modifies *
+func (c *ConnectivityChecker) IsOnline() bool
+  modifies *
+func (c *ConnectivityChecker) TriggerCheck()
+  modifies *
+@*/
